@@ -1156,13 +1156,17 @@ class ModuleEntryPoint(IoContract):
     params = {"proto_module": "pb:Module", "uuid": "val", "ir": "ref:IR"}
     closure = {"m": "ref:Module"}
     selects = staticmethod(lambda self_cls, args, kwargs=None: False)
-    segment = (lambda src: src.startswith("m.entry_point = None"), lambda src: src.startswith("m.symbols.update("))
-    part_note = "the statements from `m.entry_point = None` up to (not including) `m.symbols.update(...)`"
+    segment = (lambda src: "entry_point" in src and not src.startswith(("m = cls(", "assert ")),
+               lambda src: src.startswith("m.symbols.update("))
+    part_note = "the statements from the first one that mentions entry_point (after the construction) up to (not including) `m.symbols.update(...)`"
     modifies = {"entry_point": lambda c0, a, r: r == a.m.t}
 
     def pre(self, c, a):
         return {"message_typed": c.eng.schema.pb.typed(c, a.proto_module.t, "Module"), "table_typed": table_typed(c, a.ir.t),
-                "is_ir": c.isinst(a.ir.t, "IR")}
+                "is_ir": c.isinst(a.ir.t, "IR"),
+                # at this program point m is the module just constructed from the scalar fields (proved by the construction
+                # segment): it has no entry point yet
+                "module_has_no_entry_point_yet": is_VNone(c.get("entry_point", a.m.t))}
 
     def _p(self, c0, a):
         b = msg_uuid(c0, "Module", "entry_point", a.proto_module.t)
